@@ -23,7 +23,9 @@ def loss_scaling_claim(n, det, loss_type):
             pred = I.tensor("pred", (n,) + det, lo=0, hi=2, nonneg=True)
             targ = I.tensor("target", (n,) + det, lo=0, hi=2, nonneg=True)
             mask = I.tensor("mask", det, lo=0, hi=1)
-            mean_int = I.real("mean_intensity", 0.1, 10, positive=True)
+            # (Poisson loss: log is an uninterpreted function; a symbolic divisor on top of it does not finish, so the mean
+            # intensity is a constant there)
+            mean_int = I.real("mean_intensity", 0.1, 10, positive=True) if loss_type != "poisson" else 2.5
             ns = types.SimpleNamespace(dset=types.SimpleNamespace(targets=targ, detector_mask=mask, num_gpts=n,
                                                                   mean_diffraction_intensity=mean_int))
             full, _ = pb.PtychographyBase.error_estimate(ns, pred, np.arange(n), loss_type)
@@ -42,8 +44,8 @@ def loss_scaling_claim(n, det, loss_type):
 def loss_cases():
     out = []
     for n, det in ((4, (1, 2)), (6, (1, 1)), (3, (2, 1))):
-        for lt in ("l2_amplitude", "l1_amplitude", "l2_intensity", "l1_intensity"):
-            out.append((f"loss_scaling[n={n};det={det};{lt}]", loss_scaling_claim(n, det, lt), dict(logic="QF_NRA")))
+        for lt in ("l2_amplitude", "l1_amplitude", "l2_intensity", "l1_intensity", "poisson"):
+            out.append((f"loss_scaling[n={n};det={det};{lt}]", loss_scaling_claim(n, det, lt), dict(logic="QF_NRA" if lt != "poisson" else None)))
     return out
 
 
